@@ -13,7 +13,7 @@ func init() {
 	vRegister("H_indep", H_indep)
 }
 
-var vIndepSpecs = []string{"[-a] [-o] X...", "[OPTIONS] X [Y]", "(-o X)... | -ab", "X... Y", "-a -b | [-o...] X", "[-ab | -o] X"}
+var vIndepSpecs = []string{"[-a] [-o] X...", "[OPTIONS] X [Y]", "(-o X)... | -ab", "X... Y", "-a -b | [-o...] X", "[-ab | -o] X", "[OPTIONS] [X]"}
 
 func H_indep() {
 	vUseNames(vParamInt("names"))
